@@ -17,6 +17,7 @@ Goal families
 """
 from __future__ import annotations
 
+import contextlib
 import itertools
 from fractions import Fraction
 
@@ -255,25 +256,42 @@ def engine_vs_torch_case():
     return Case("selftest/modules_engine_vs_torch", body, goals, family="selftest", params={}, check_obligations=False)
 
 
-def layer_case(N, C, modes, flags, B=1):
-    """single Fourier layer on a grid N (tuple), every axis and shift"""
+def layer_case(N, C, modes, flags, B=1, nograd=False):
+    """single Fourier layer on a grid N (tuple), every axis and shift; nograd: evaluated under torch.no_grad() (inference),
+    the first result is kept and compared AFTER the later calls of the same layer object, and the layer is applied to its
+    own output (which it must not modify)"""
     N = tuple(N)
     modes_t = tuple(modes) if isinstance(modes, (tuple, list)) else (modes,)
     fl = FLAGS[flags]
-    name = "layer%dd/N%s/C%d/M%s/%s%s" % (len(N), _name_grid(N), C, _name_grid(modes_t), flags, "" if B == 1 else "/B%d" % B)
+    name = "layer%dd/N%s/C%d/M%s/%s%s%s" % (len(N), _name_grid(N), C, _name_grid(modes_t), flags, "" if B == 1 else "/B%d" % B,
+                                            "/no_grad" if nograd else "")
 
     def body(env):
         layer = make_layer(env, C, modes if len(N) > 1 else modes_t[0], **fl)
         x = env.tensor("x", (B,) + N + (C,))
         snap = F.snapshot(x)
-        y = layer(x)
-        axes = [(1 + i, n) for i, n in enumerate(N)]
-        pairs = _shift_pairs(layer, x, y, axes, combined=True)
-        return dict(x_before=snap, x_after=F.realize(x), shape_ok=tuple(y.shape) == tuple(x.shape) and not y.is_complex(),
-                    pairs=pairs)
+        ctxm = torch.no_grad() if nograd else contextlib.nullcontext()
+        with ctxm:
+            y = layer(x)
+            y_first = F.snapshot(y) if nograd else None
+            axes = [(1 + i, n) for i, n in enumerate(N)]
+            pairs = _shift_pairs(layer, x, y, axes, combined=True)
+            res = dict(x_before=snap, x_after=F.realize(x), shape_ok=tuple(y.shape) == tuple(x.shape) and not y.is_complex(),
+                       pairs=pairs)
+            if nograd:
+                y_now = F.realize(y)
+                y2 = layer(y)
+                res.update(first_result=[y_first, y_now, F.realize(y)], ok2=tuple(y2.shape) == tuple(y.shape))
+        return res
 
-    return Case(name, body, _equiv_goals, family="layer%dd/%s" % (len(N), flags),
-                params=dict(N=N, C=C, modes=modes_t, B=B, **fl))
+    def goals(o, L, env):
+        yield from _equiv_goals(o, L, env)
+        if nograd:
+            yield "first_result_intact_after_later_calls", _all_eq(L, o["first_result"][1], o["first_result"][0])
+            yield "layer_does_not_modify_its_input_when_fed_its_own_output", bool(o["ok2"]) and _all_eq(L, o["first_result"][2], o["first_result"][0])
+
+    return Case(name, body, goals, family="layer%dd/%s" % (len(N), flags),
+                params=dict(N=N, C=C, modes=modes_t, B=B, nograd=nograd, **fl))
 
 
 ACTS = {"id": torch.nn.Identity, "tanh": torch.nn.Tanh}
@@ -458,6 +476,9 @@ def cases(tier):
             cs.append(layer_case(N, 1, (2, 2, 2), "all"))
         cs.append(layer_case((2, 2, 2, 2), 1, (2, 2, 2, 2), "all"))
 
+    # ---- inference mode (torch.no_grad): results of earlier calls stay intact, the layer can be fed its own output
+    for N, m, flags in (((4,), 2, "plain"), ((4,), 3, "all"), ((3,), 2, "lin")) + ((((2, 2), (2, 2), "all"), ((6,), 3, "skip")) if thorough else ()):
+        cs.append(layer_case(N, 1, m, flags, nograd=True))
     # ---- one layer object on two grids (2k and 2k+1 nodes share the shape of the half spectrum) ----------
     for N1, N2 in (((2,), (3,)), ((3,), (2,)), ((4,), (2,))) + ((((2, 2), (2, 3)), ((3, 3), (3, 2)), ((6,), (3,)), ((8,), (4,))) if thorough else ()):
         for flags in ("plain", "all"):
